@@ -9,6 +9,7 @@
 (*   [k |-> "elf",  shndx, secs |-> <<[ni, fl, ad, sz]>>, strtab |-> <<bytes>>] type 9 *)
 (*        (secs may be empty: a kernel image without section headers, shndx = 0)  *)
 (*   [k |-> "other", ty  |-> type, len |-> payload bytes]    any other type *)
+(*        (a type >= 2^31 is written as type - 2^32: TLC integers are 32 bit)   *)
 (* Wide values are limb tuples (most significant 16-bit limb first): a, l,  *)
 (* ad, sz, addr have 4 limbs, t, fl, pitch, w, h have 2.                    *)
 (*                                                                          *)
@@ -47,11 +48,14 @@ Regions(b) == LET i == FirstIdx(b, 6) IN
 
 \* --- command line: white-space separated entries, key=value or bare flag
 WS == {9, 10, 11, 12, 13, 32}
-RECURSIVE Tokens(_, _, _)
-Tokens(s, i, cur) ==
-  IF i > Len(s) THEN (IF cur = <<>> THEN <<>> ELSE <<cur>>)
-  ELSE IF s[i] \in WS THEN (IF cur = <<>> THEN Tokens(s, i + 1, <<>>) ELSE <<cur>> \o Tokens(s, i + 1, <<>>))
-  ELSE Tokens(s, i + 1, Append(cur, s[i]))
+\* the white-space separated entries of s, in order (computed from the sets of entry starts and ends
+\* rather than character by character: command lines of kilobytes stay cheap for TLC)
+RECURSIVE SortSet(_)
+SortSet(S) == IF S = {} THEN <<>> ELSE LET m == CHOOSE x \in S : \A y \in S : x <= y IN <<m>> \o SortSet(S \ {m})
+Tokens(s) == LET n == Len(s)
+                 st == SortSet({i \in 1..n : s[i] \notin WS /\ (i = 1 \/ s[i - 1] \in WS)})
+                 en == SortSet({i \in 1..n : s[i] \notin WS /\ (i = n \/ s[i + 1] \in WS)})
+             IN [j \in 1..Len(st) |-> SubSeq(s, st[j], en[j])]
 EqPos(tok) == {i \in 1..Len(tok) : tok[i] = 61}
 \* an entry with two or more '=' is neither form: the statement does not say how it is reported
 Ambiguous(tok) == Cardinality(EqPos(tok)) >= 2
@@ -60,7 +64,7 @@ Entry(tok) == LET E == EqPos(tok) IN
               ELSE LET p == CHOOSE i \in E : TRUE IN
                    [k |-> SubSeq(tok, 1, p - 1), v |-> SubSeq(tok, p + 1, Len(tok)), bare |-> FALSE]
 CmdLine(b) == LET i == FirstIdx(b, 1) IN IF i = 0 THEN <<>> ELSE b[i].s
-CmdTokens(b) == Tokens(CmdLine(b), 1, <<>>)
+CmdTokens(b) == Tokens(CmdLine(b))
 CmdConstrained(b) == LET t == CmdTokens(b) IN \A i \in 1..Len(t) : ~Ambiguous(t[i])
 \* kv: sequence of <<key, value>> pairs (order immaterial).  Exactly the encoded keys are present; a
 \* key=value entry reports its value; for a bare flag only its presence is fixed by the statement; a
